@@ -320,6 +320,16 @@ fn case(h: &H, idx: u64, kind: u64, rng: &mut Rng) {
                     report(h, idx, "merc-on-sphere-differs-from-webmerc", &mdef, &wdef, &p, &ra, &rb, d, 1e-6);
                     return;
                 }
+                // and back: the same plane point gives the same place on the sphere
+                let (ia, _) = apply1(&pr.ctx, a, D::I, rb);
+                let (ib, _) = apply1(&pr.ctx, b, D::I, rb);
+                h.eval(2);
+                let di = r.max(6.0e6) * (ia[0] - ib[0]).hypot(ia[1] - ib[1]);
+                h.max("merc(sphere) vs webmerc, inverse (m)", di, || mdef.clone());
+                if !(di <= 1.0e-6) {
+                    report(h, idx, "merc-on-sphere-differs-from-webmerc/inv", &mdef, &wdef, &rb, &ia, &ib, di, 1e-6);
+                    return;
+                }
             }
         }
         // ---- lat_ts == the corresponding k_0 ---------------------------------------------------
